@@ -104,6 +104,32 @@ def run(tier, seed, replay=None):
             except Exception as e:  # noqa
                 fail(name, args, 'raised %s' % type(e).__name__)
         r2 = rng.choice([0.5, 1.5, 2.0])
+        # the x-axis need not be orthogonal to the normal (the default (1,0,0) under a tilted normal is not): its
+        # projection onto the plane is the direction of parameter zero and of the first semi-axis
+        if rng.random() < 0.5:
+            xalt = rng.choice([None, None, (1.0, 0.0, 0.0), (2.0, 0.0, 0.0), tuple(float(rng.randint(-3, 3)) for _ in range(3))])
+            xv = np.array((1.0, 0.0, 0.0) if xalt is None else xalt)
+            xp_ = xv - np.dot(xv, nh) * nh
+            if np.linalg.norm(xp_) > 0.3:
+                xh_alt = unit(xp_)
+                kw_ = {} if xalt is None else {'xaxis': xalt}
+                args_alt = dict(args, xaxis=('default' if xalt is None else list(xalt)), r2=r2)
+                try:
+                    for nm_, obj_ in (('ellipse', cf.ellipse(r, r2, c, n, **kw_)), ('circle', cf.circle(r, c, n, **kw_))):
+                        count(nm_ + ' oblique xaxis')
+                        ra_, rb_ = (r, r2) if nm_ == 'ellipse' else (r, r)
+                        yh_ = np.cross(nh, xh_alt)
+                        for p in pts(obj_, sample_params(obj_)):
+                            d = pad3(p) - c
+                            u, v, w_ = np.dot(d, xh_alt), np.dot(d, yh_), np.dot(d, nh)
+                            if abs((u / ra_) ** 2 + (v / rb_) ** 2 - 1) > TOL * 10 or abs(w_) > TOL * 10:
+                                fail(nm_, args_alt, 'point %s is not on the %s whose first semi-axis is the projection of the x-axis onto the plane' % (p.tolist(), nm_))
+                                break
+                        p0 = pad3(obj_.evaluate(obj_.start(0))) - c
+                        if np.linalg.norm(p0 - ra_ * xh_alt) > TOL * max(1, ra_):
+                            fail(nm_, args_alt, 'parameter zero is at %s, expected centre + r*(projected x-axis)' % (p0 + c).tolist())
+                except Exception as e:  # noqa
+                    fail('ellipse', args_alt, 'raised %s' % type(e).__name__)
         try:
             el = cf.ellipse(r, r2, c, n, xaxis=x)
             count('ellipse')
